@@ -71,6 +71,14 @@ def check(mdir, prop, tier="quick"):
         if p.returncode != 0:
             return {"apply_rc": p.returncode, "out": p.stdout[-500:]}
         env = dict(os.environ, VERIF_REPO=wt, VERIF_EVIDENCE_DIR=os.path.join(wt, ".evidence"), VERIF_REPLAY_DIR=os.path.join(wt, ".replays"))
+        seeds = [x for x in os.environ.get("SEED_LIST", "").split(",") if x]
+        if seeds:
+            # robustness of a catch: the same check under other generator seeds
+            caught = {}
+            for sd in seeds:
+                p = sh([os.path.join(VERIF, "check"), prop, "--tier", tier], env=dict(env, VERIF_SEED=sd), cwd=VERIF)
+                caught[sd] = p.returncode
+            return {"rc": 1 if all(v == 1 for v in caught.values()) else 0, "lines": [], "tail": json.dumps(caught), "why": json.dumps(caught)}
         p = sh([os.path.join(VERIF, "check"), prop, "--tier", tier], env=env, cwd=VERIF)
         lines = [l for l in p.stdout.split("\n") if l.startswith("VIOLATION") or l.startswith("KNOWN-FINDING")]
         why = None
@@ -110,7 +118,7 @@ def main():
                 return None
             return name, prop, check(d, prop, tier)
         results = {}
-        with ThreadPoolExecutor(max_workers=3) as ex:
+        with ThreadPoolExecutor(max_workers=int(os.environ.get("SEED_WORKERS", "3"))) as ex:
             for r in ex.map(one, items):
                 if r:
                     name, prop, res = r
